@@ -9,6 +9,11 @@
 -/
 import Chrono.Proofs.Rfc2822ScanSoundL
 import Chrono.Proofs.ParsedZonedL
+import Chrono.Proofs.Rfc2822InbandL
+import Chrono.Proofs.Rfc2822ItemL
+import Chrono.Proofs.Rfc2822RejectL
+import Chrono.Proofs.Rfc2822UniqueL
+import Chrono.Proofs.Rfc2822TrailL
 import Chrono.Extracted.Rfc2822
 
 namespace Chrono.Props.C11
@@ -23,6 +28,38 @@ theorem scanner_complete (s : List Nat) (f : Fields) (h : Rfc2822 s f) (hr : Set
   have := parse_rfc2822_complete s f h hr
   unfold Parse.parse Rfc2822.ITEMS Parse.parse_internal
   simp only [this, Parse.parse_internal]
+
+/-- `parse` with the single item `RFC2822` on a string of the grammar whose fields are NOT all inside
+the setter ranges (day 0 or > 31, year beyond `i32`/`i64`, hour > 23, minute > 59, second > 60): the
+scanner itself returns an error (the first out-of-range `Parsed::set_*`, or `scan::number`) -/
+theorem scanner_rejects (s : List Nat) (f : Fields) (h : Rfc2822 s f) (hr : ¬ SetterRanges f) :
+    ∃ e, Parse.parse Parsed.new s Rfc2822.ITEMS = .error e := by
+  obtain ⟨e, he⟩ := parse_rfc2822_rejects s f h hr
+  refine ⟨e, ?_⟩
+  unfold Parse.parse Rfc2822.ITEMS Parse.parse_internal
+  simp only [he]
+
+/-- **out_of_range_rejected.**  A string of the grammar spelling a field outside the setter ranges is
+rejected by value by `parse_from_rfc2822` (`Err`, never a panic, never a value). -/
+theorem out_of_range_rejected (s : List Nat) (f : Fields) (h : Rfc2822 s f) (hr : ¬ SetterRanges f) :
+    ∃ e, Rfc2822.parse_from_rfc2822 s = .ok (.error e) := by
+  obtain ⟨e, he⟩ := scanner_rejects s f h hr
+  refine ⟨e, ?_⟩
+  unfold Rfc2822.parse_from_rfc2822
+  rw [he]
+
+/-- on the grammar the scanner succeeds exactly inside the setter ranges -/
+theorem scanner_ok_iff (s : List Nat) (f : Fields) (h : Rfc2822 s f) :
+    (∃ p, Parse.parse Parsed.new s Rfc2822.ITEMS = .ok p) ↔ SetterRanges f := by
+  constructor
+  · rintro ⟨p, hp⟩
+    apply Classical.byContradiction
+    intro hr
+    obtain ⟨e, he⟩ := scanner_rejects s f h hr
+    rw [he] at hp
+    cases hp
+  · intro hr
+    exact ⟨_, scanner_complete s f h hr⟩
 
 /-- **reader_accepts_spec** (completeness over the grammar).  Every string of the RFC 2822 date-time
 syntax (optional day-name, one- or two-digit day, month name in any case, 2/3/4+-digit year,
@@ -105,24 +142,77 @@ theorem reader_total (s : List Nat) : ∃ r, Rfc2822.parse_from_rfc2822 s = .ok 
     obtain ⟨r, hr', _⟩ := Chrono.Proofs.ParsedRes.to_datetime_spec _ (inType_parsedOf f hr hm (by omega))
     exact ⟨r, hr'⟩
 
-/-- acceptance is exactly validity on the grammar: a string spelling fields `f` (inside the setter
-ranges) is accepted iff `f` is valid -/
-theorem accepts_iff_valid (s : List Nat) (f : Fields) (h : Rfc2822 s f) (hr : SetterRanges f) :
+/-- the fields a string of the grammar spells have month ≤ 12 and a non-negative year -/
+theorem grammar_month_year (s : List Nat) (f : Fields) (h : Rfc2822 s f) : f.month ≤ 12 ∧ 0 ≤ f.year := by
+  obtain ⟨_, _, _, _, _, _, _, yy, _, _, _, _, _, _, _, _, _, _, _, _, _, _, _, _, hmn, _, _, _, hyv, _⟩ := h
+  obtain ⟨i, hi, _, hmi⟩ := hmn
+  have := yearOf_ge yy
+  omega
+
+/-- **accepts_iff_valid.**  Acceptance is exactly validity on the grammar: a string spelling fields
+`f` — ANY fields, no range hypothesis — is accepted iff `f` is valid. -/
+theorem accepts_iff_valid (s : List Nat) (f : Fields) (h : Rfc2822 s f) :
     (∃ z, Rfc2822.parse_from_rfc2822 s = .ok (.ok z)) ↔ Valid f := by
   constructor
   · rintro ⟨z, hz⟩
-    have hm : f.month ≤ 12 ∧ 0 ≤ f.year := by
-      obtain ⟨_, _, _, _, _, _, _, yy, _, _, _, _, _, _, _, _, _, _, _, _, _, _, _, _, hmn, _, _, _, hyv, _⟩ := h
-      obtain ⟨i, hi, _, hmi⟩ := hmn
-      have := yearOf_ge yy
-      omega
-    have hin := inType_parsedOf f hr hm.1 (by omega)
-    unfold Rfc2822.parse_from_rfc2822 at hz
-    rw [scanner_complete s f h hr] at hz
-    exact (resolve_sound f hin z hz).1
+    by_cases hr : SetterRanges f
+    · have hm := grammar_month_year s f h
+      have hin := inType_parsedOf f hr hm.1 (by omega)
+      unfold Rfc2822.parse_from_rfc2822 at hz
+      rw [scanner_complete s f h hr] at hz
+      exact (resolve_sound f hin z hz).1
+    · obtain ⟨e, he⟩ := out_of_range_rejected s f h hr
+      rw [he] at hz
+      cases hz
   · intro hv
     obtain ⟨z, hz, _⟩ := reader_accepts_spec s f h hv
     exact ⟨z, hz⟩
+
+/-- **grammar_unambiguous.**  The specification relation is unambiguous: a byte string spells at most
+one tuple of fields — ANY fields, in or out of any range (proved on the relation itself, piece by
+piece: a white-space run ends where a byte that starts no white-space character begins, a digit string
+at a non-digit, names and two-digit fields have a fixed length, a zone is followed by no letter).
+Hence "the fields `s` spells" in `accepts_iff_valid`, `weekday_mismatch_rejected` and
+`out_of_range_rejected` are THE fields of `s`: a string of the grammar is accepted iff its one reading
+is valid. -/
+theorem grammar_unambiguous (s : List Nat) (f f' : Fields) (h : Rfc2822 s f) (h' : Rfc2822 s f') : f = f' :=
+  rfc2822_unambiguous s f f' h h'
+
+/-- every accepted string has exactly one reading, and it is valid and denotes the returned value -/
+theorem accepted_reading_unique (s : List Nat) (z : Zoned) (hz : Rfc2822.parse_from_rfc2822 s = .ok (.ok z)) :
+    ∃ f, Rfc2822 s f ∧ Valid f ∧ Denotes f z ∧ ∀ f', Rfc2822 s f' → f' = f := by
+  obtain ⟨f, hf, hv, hd⟩ := reader_sound s z hz
+  exact ⟨f, hf, hv, hd, fun f' hf' => grammar_unambiguous s f' f hf' hf⟩
+
+/-- rejection, stated on the string alone: a string of the grammar NONE of whose readings is valid
+(equivalently, by `grammar_unambiguous`, whose one reading is not valid) is rejected by value -/
+theorem invalid_rejected (s : List Nat) (f : Fields) (h : Rfc2822 s f) (hv : ¬ Valid f) :
+    ∃ e, Rfc2822.parse_from_rfc2822 s = .ok (.error e) := by
+  obtain ⟨r, hr⟩ := reader_total s
+  cases r with
+  | error e => exact ⟨e, hr⟩
+  | ok z => exact absurd ((accepts_iff_valid s f h).mp ⟨z, hr⟩) hv
+
+/-- **trailing_white_space_rejected** (the boundary of the specification, as a theorem about the code).
+ANY text that ends in one of the 25 white-space characters is rejected by value: no string of the
+relation ends in white space (each ends in the last digit / letter of its zone or the `)` of its last
+comment), and the reader accepts nothing outside the relation (`reader_sound`).  This is the
+observation recorded in the specification header — the grammar comment in parse.rs allows trailing
+white space, the code does not, the property does not ask for it. -/
+theorem trailing_white_space_rejected (s w : List Nat) (hw : w ∈ WS) :
+    ∃ e, Rfc2822.parse_from_rfc2822 (s ++ w) = .ok (.error e) := by
+  obtain ⟨r, hr⟩ := reader_total (s ++ w)
+  cases r with
+  | error e => exact ⟨e, hr⟩
+  | ok z =>
+    exfalso
+    obtain ⟨f, hf, _, _⟩ := reader_sound (s ++ w) z hr
+    obtain ⟨b, hb, he⟩ := rfc2822_last hf
+    obtain ⟨b', hb', hne⟩ := ws_last_not_end w hw
+    rw [getLast_append_some s w hb'] at hb
+    injection hb with hb
+    subst hb
+    exact hne he
 
 /-! ## the writer's standard form and the round trip -/
 
@@ -131,6 +221,24 @@ it can show (day-name, year 0–9999, seconds 00–60, whole-minute offset of le
 string of the reader's grammar spelling exactly those fields. -/
 theorem writer_form_in_grammar (f : Fields) (h : StdFields f) : Rfc2822 (stdText f) f :=
   std_in_grammar f h
+
+/-- **wall_date_exists_unique.**  Every well-formed zone-aware value has exactly one wall-clock date
+`(Y, o)` (year and day of the year of `instant + offset`) — the `(Y, o)` that `writer_shape`,
+`item_shape` and the round-trip theorems quantify over is determined by `z`. -/
+theorem wall_date_exists_unique (z : Zoned) (hz : ZInv z) :
+    ∃ Y o, WallDate z Y o ∧ ∀ Y' o', WallDate z Y' o' → Y' = Y ∧ o' = o := by
+  obtain ⟨Y, o, hw⟩ := wallDate_exists z hz
+  exact ⟨Y, o, hw, fun Y' o' hw' => wallDate_unique z Y' Y o' o hw' hw⟩
+
+/-- **writer_shape_total** (`writer_shape` without a wall-clock date handed in).  For every well-formed
+value there is a wall-clock date — its only one — and `to_rfc2822` is the standard form of the
+wall-clock fields at that date, or the documented panic outside years 0–9999. -/
+theorem writer_shape_total (z : Zoned) (hz : ZInv z) :
+    ∃ Y o, WallDate z Y o ∧
+      Rfc2822.to_rfc2822 z =
+        if 0 ≤ Y ∧ Y ≤ 9999 then .ok (stdHead (fieldsOf z Y o) ++ shownZone z.off) else .panic := by
+  obtain ⟨Y, o, hw⟩ := wallDate_exists z hz
+  exact ⟨Y, o, hw, to_rfc2822_shape z hz Y o hw⟩
 
 /-- **writer_shape.**  For EVERY well-formed zone-aware value `z` (any sub-second part, any offset of
 less than a day) with wall-clock date `(Y, o)`: if the wall-clock year is in 0–9999, `to_rfc2822 z`
@@ -145,6 +253,32 @@ theorem writer_shape (z : Zoned) (hz : ZInv z) (Y : Int) (o : Nat) (hw : WallDat
     Rfc2822.to_rfc2822 z =
       if 0 ≤ Y ∧ Y ≤ 9999 then .ok (stdHead (fieldsOf z Y o) ++ shownZone z.off) else .panic :=
   to_rfc2822_shape z hz Y o hw
+
+/-- **writer_panics_iff.**  `to_rfc2822` panics exactly when the wall-clock year is negative or has more
+than four digits (there is NO lower limit at 1900: RFC 2822 forbids such years, chrono writes them). -/
+theorem writer_panics_iff (z : Zoned) (hz : ZInv z) (Y : Int) (o : Nat) (hw : WallDate z Y o) :
+    Rfc2822.to_rfc2822 z = .panic ↔ (Y < 0 ∨ 9999 < Y) := by
+  rw [writer_shape z hz Y o hw]
+  by_cases hr : 0 ≤ Y ∧ Y ≤ 9999
+  · rw [if_pos hr]; constructor
+    · intro h; cases h
+    · intro h; omega
+  · rw [if_neg hr]; constructor
+    · intro _; omega
+    · intro _; rfl
+
+/-- the writer's year range on concrete values (kernel evaluation; the real crate gives the same):
+1899-01-01 and 0000-01-01 are written; −0001-12-31, 10000-01-01, the first and the last representable
+date panic in `to_rfc2822` and give `fmt::Error` through the item -/
+example :
+    Rfc2822.to_rfc2822 ⟨⟨dateOfYo 1899 1, ⟨0, 0⟩⟩, 0⟩ = .ok (stdText ⟨some .sun, 1, 1, 1899, 0, 0, some 0, 0⟩) ∧
+    Rfc2822.to_rfc2822 ⟨⟨dateOfYo (-1) 365, ⟨86399, 0⟩⟩, 0⟩ = .panic ∧
+    Rfc2822.to_rfc2822 ⟨⟨dateOfYo 10000 1, ⟨0, 0⟩⟩, 0⟩ = .panic ∧
+    Rfc2822.to_rfc2822 ⟨⟨dateOfYo (-262143) 1, ⟨0, 0⟩⟩, 0⟩ = .panic ∧
+    Rfc2822.to_rfc2822 ⟨⟨dateOfYo 262142 365, ⟨86399, 0⟩⟩, 0⟩ = .panic ∧
+    Rfc2822.format_item_rfc2822 ⟨⟨dateOfYo (-1) 365, ⟨86399, 0⟩⟩, 0⟩ = .ok none ∧
+    Rfc2822.format_item_rfc2822 ⟨⟨dateOfYo 262142 365, ⟨86399, 0⟩⟩, 0⟩ = .ok none := by
+  decide +kernel
 
 /-- for a whole-minute offset that text is the standard form `stdText` of the wall-clock fields -/
 theorem writer_shape_whole_minute (z : Zoned) (hz : ZInv z) (Y : Int) (o : Nat) (hw : WallDate z Y o)
@@ -177,6 +311,127 @@ example : ZInv ⟨⟨dateOfYo 2016 366, ⟨86399, 1500000000⟩⟩, 19800⟩ ∧
   unfold WallDate
   decide +kernel
 
+/-- **roundtrip_inband_leap** (the complementary case of `roundtrip`).  A well-formed value that carries
+the leap-second representation (nanosecond field ≥ 10⁹) on a second OTHER than :59 of a minute — only
+`with_nanosecond` builds it — with wall-clock year 0–9999 and a whole-minute offset: the writer shows
+`second + 1` (≤ 59), and `parse_from_rfc2822(&z.to_rfc2822())` is `Ok` of the FOLLOWING whole second
+(`nextSec z`): same offset, instant `+1 s` in whole seconds, no sub-second part, no leap flag.  There
+is no range caveat: the following second lies on the same UTC day (`secs % 60 ≠ 59` gives
+`secs + 1 < 86400`), so the result is always a well-formed in-range value — the call never yields `Err`.
+(Confirmed on the real crate: 2020-05-17T12:30:15 + 1.5 s at +01:00 → `Sun, 17 May 2020 13:30:16 +0100`
+→ 13:30:16+01:00.)  The in-band value's instant is `secs + frac/10⁹ ≥ secs + 1`, so this IS "the same
+instant to whole seconds" (`readBack_whole_seconds`). -/
+theorem roundtrip_inband_leap (z : Zoned) (hz : ZInv z) (hl : InbandLeap z) (Y : Int) (o : Nat)
+    (hw : WallDate z Y o) (hr : 0 ≤ Y ∧ Y ≤ 9999) (hoff : z.off % 60 = 0) :
+    ∃ z', Rfc2822.roundtrip z = .ok (.ok (.ok z')) ∧ z' = nextSec z ∧ ZInv z' ∧ z'.off = z.off ∧
+      instSecs z'.utc = instSecs z.utc + 1 ∧ z'.utc.time.frac = 0 := by
+  obtain ⟨h1, h2, h3⟩ := fieldsOf_facts_inband z hz hl Y o hw hr hoff
+  obtain ⟨z', p1, p2⟩ := reader_accepts_spec _ _ (std_in_grammar _ h1) h2
+  have := denotation_unique _ z' (nextSec z) p2 h3
+  subst this
+  obtain ⟨n1, n2, n3, n4, _⟩ := nextSec_facts z hz hl
+  refine ⟨nextSec z, ?_, rfl, n1, n4, n2, n3⟩
+  unfold Rfc2822.roundtrip
+  rw [writer_shape_whole_minute z hz Y o hw hr hoff]
+  simp only [p1]
+
+/-- the split is exhaustive: a well-formed value is constructor-built (`TStrict`, hypothesis of
+`roundtrip`) exactly when it is not an in-band leap value (hypothesis of `roundtrip_inband_leap`) -/
+theorem strict_or_inband (z : Zoned) (hz : ZInv z) : TStrict z.utc.time ↔ ¬ InbandLeap z := by
+  obtain ⟨⟨_, hv⟩, _⟩ := hz
+  unfold TStrict InbandLeap
+  constructor
+  · rintro ⟨_, h⟩; omega
+  · intro h; exact ⟨hv, by omega⟩
+
+/-- **roundtrip_all** (the property's round-trip clause on its WHOLE quantifier domain).  For every
+well-formed value — any nanosecond field the type allows, the in-band leap representation included —
+with wall-clock year 0–9999 and a whole-minute offset, `parse_from_rfc2822(&z.to_rfc2822())` is `Ok
+(readBack z)`: never a panic, never `Err`; the same offset; `z` to whole seconds, a leap second on :59
+kept, an in-band leap value read as the following second. -/
+theorem roundtrip_all (z : Zoned) (hz : ZInv z) (Y : Int) (o : Nat)
+    (hw : WallDate z Y o) (hr : 0 ≤ Y ∧ Y ≤ 9999) (hoff : z.off % 60 = 0) :
+    Rfc2822.roundtrip z = .ok (.ok (.ok (readBack z))) := by
+  unfold readBack
+  by_cases hl : InbandLeap z
+  · rw [if_pos hl]
+    obtain ⟨z', h, rfl, _⟩ := roundtrip_inband_leap z hz hl Y o hw hr hoff
+    exact h
+  · rw [if_neg hl]
+    exact roundtrip z hz ((strict_or_inband z hz).mpr hl) Y o hw hr hoff
+
+/-- **readBack_whole_seconds** (what `readBack` means, against the instant scale only).  Counting the
+nanosecond field's overflow as one more second (`instSecs + frac / 10⁹`: chrono's reading of its leap
+representation), `readBack z` is the same whole second as `z`, has no sub-second part, the same
+offset and is well formed; and it is a leap-second value exactly when `z` is one on second :59. -/
+theorem readBack_whole_seconds (z : Zoned) (hz : ZInv z) :
+    instSecs (readBack z).utc + (readBack z).utc.time.frac / 1000000000 =
+      instSecs z.utc + z.utc.time.frac / 1000000000 ∧
+    (readBack z).utc.time.frac % 1000000000 = 0 ∧ (readBack z).off = z.off ∧ ZInv (readBack z) ∧
+    ((readBack z).utc.time.frac ≥ 1000000000 ↔ (z.utc.time.frac ≥ 1000000000 ∧ z.utc.time.secs % 60 = 59)) := by
+  unfold readBack
+  by_cases hl : InbandLeap z
+  · rw [if_pos hl]
+    obtain ⟨n1, n2, n3, n4, _⟩ := nextSec_facts z hz hl
+    obtain ⟨⟨_, _, _, f0, f1⟩, _⟩ := hz
+    obtain ⟨l1, l2⟩ := hl
+    refine ⟨by rw [n2, n3]; omega, by rw [n3]; rfl, n4, n1, by rw [n3]; omega⟩
+  · rw [if_neg hl]
+    obtain ⟨⟨hd, t0, t1, f0, f1⟩, ho⟩ := hz
+    unfold InbandLeap at hl
+    refine ⟨?_, ?_, rfl, ⟨⟨hd, t0, t1, ?_, ?_⟩, ho⟩, ?_⟩
+    all_goals (unfold truncSecs; (try unfold instSecs); dsimp only; split <;> omega)
+
+/-- non-vacuity of `roundtrip_inband_leap` / `roundtrip_all`: 2020-05-17T12:30:15 carrying 1.5 s in
+its nanosecond field, seen at +01:00, meets every hypothesis; it reads back as 12:30:16 UTC -/
+example : ZInv ⟨⟨dateOfYo 2020 138, ⟨45015, 1500000000⟩⟩, 3600⟩ ∧
+    InbandLeap ⟨⟨dateOfYo 2020 138, ⟨45015, 1500000000⟩⟩, 3600⟩ ∧
+    WallDate ⟨⟨dateOfYo 2020 138, ⟨45015, 1500000000⟩⟩, 3600⟩ 2020 138 ∧
+    readBack ⟨⟨dateOfYo 2020 138, ⟨45015, 1500000000⟩⟩, 3600⟩ = ⟨⟨dateOfYo 2020 138, ⟨45016, 0⟩⟩, 3600⟩ := by
+  unfold WallDate
+  decide +kernel
+
+/-! ## the same writer reached through the `Fixed::RFC2822` item -/
+
+/-- **item_shape.**  `dt.format_with_items([Item::Fixed(Fixed::RFC2822)])` written into a `String`
+(`DelayedFormat::write_to`), for EVERY well-formed zone-aware value with wall-clock date `(Y, o)`: the
+same text as `writer_shape` states for `to_rfc2822` — `Www, D Mon YYYY HH:MM:SS ` of the wall-clock
+fields (second 60 for a leap second) followed by `shownZone z.off` — when the wall-clock year is in
+0–9999; otherwise `Err(fmt::Error)` (`.ok none`), never a panic and never a text. -/
+theorem item_shape (z : Zoned) (hz : ZInv z) (Y : Int) (o : Nat) (hw : WallDate z Y o) :
+    Rfc2822.format_item_rfc2822 z =
+      if 0 ≤ Y ∧ Y ≤ 9999 then .ok (some (stdHead (fieldsOf z Y o) ++ shownZone z.off)) else .ok none :=
+  format_item_shape z hz Y o hw
+
+/-- **item_form.**  The item form and the method agree on every well-formed value: the item writes
+exactly the text `to_rfc2822` returns, and fails with `fmt::Error` exactly where `to_rfc2822` panics
+(its `expect` on that very error). -/
+theorem item_form (z : Zoned) (hz : ZInv z) :
+    Rfc2822.format_item_rfc2822 z =
+      match Rfc2822.to_rfc2822 z with
+      | .ok t => .ok (some t)
+      | .panic => .ok none := by
+  obtain ⟨Y, o, hw⟩ := wallDate_exists z hz
+  rw [item_shape z hz Y o hw, writer_shape z hz Y o hw]
+  by_cases hr : 0 ≤ Y ∧ Y ≤ 9999
+  · rw [if_pos hr, if_pos hr]
+  · rw [if_neg hr, if_neg hr]
+
+/-- the item anywhere in an item list (`%c`-like use, any zone name attached to the offset): one
+`write_to` step on a wall-clock reading `l` at offset `off` is `write_rfc2822 l off` -/
+theorem item_step (l : NaiveDT) (name : List Nat) (off : Int) :
+    Format.format_item (some l.date) (some l.time) (some (name, off)) (.fixed .rfc2822) =
+      Format.write_rfc2822 l off := rfl
+
+/-- non-vacuity / kernel evaluation of the item form: the leap second 2016-12-31T23:59:60.5Z at +05:30
+is written with second 60 (the text of `writer_shape_samples`); 9999-12-31T23:59:59Z at +00:01 (wall-clock
+year 10000) is `Err`, not a panic -/
+example :
+    Rfc2822.format_item_rfc2822 ⟨⟨dateOfYo 2016 366, ⟨86399, 1500000000⟩⟩, 19800⟩
+      = .ok (some (stdText ⟨some .sun, 1, 1, 2017, 5, 29, some 60, 19800⟩)) ∧
+    Rfc2822.format_item_rfc2822 ⟨⟨dateOfYo 9999 365, ⟨86399, 0⟩⟩, 60⟩ = .ok none := by
+  decide +kernel
+
 /-- **writer_shape_samples** (kernel evaluation of the writer model on boundary values, not a
 universal statement): 1970-01-01T00:00Z shown at +01:00; the leap second 2016-12-31T23:59:60Z shown at
 +05:30 (next day, second 60 kept); the first and the last second the format can show (year 0000 at
@@ -197,22 +452,21 @@ theorem writer_shape_samples :
 /-! ## a contradicting day-name is rejected -/
 
 /-- **weekday_mismatch_rejected.**  A string of the grammar whose day-name is not the weekday of its
-date is rejected by value (`Err`, never a panic, never a value) — whatever the other fields are. -/
-theorem weekday_mismatch_rejected (s : List Nat) (f : Fields) (h : Rfc2822 s f) (hr : SetterRanges f)
+date is rejected by value (`Err`, never a panic, never a value) — whatever the other fields are, in
+or out of any range (no hypothesis on them). -/
+theorem weekday_mismatch_rejected (s : List Nat) (f : Fields) (h : Rfc2822 s f)
     (w : Weekday) (hw : f.weekday = some w)
     (hne : (w.toNat : Int) ≠ weekdayOf (dayNum f.year f.month f.day)) :
     ∃ e, Rfc2822.parse_from_rfc2822 s = .ok (.error e) := by
-  have hm : f.month ≤ 12 ∧ 0 ≤ f.year := by
-    obtain ⟨_, _, _, _, _, _, _, yy, _, _, _, _, _, _, _, _, _, _, _, _, _, _, _, _, hmn, _, _, _, hyv, _⟩ := h
-    obtain ⟨i, hi, _, hmi⟩ := hmn
-    have := yearOf_ge yy
-    omega
-  have hp := inType_parsedOf f hr hm.1 (by omega)
-  obtain ⟨e, he⟩ := resolve_weekday_mismatch f hp w hw hne
-  refine ⟨e, ?_⟩
-  unfold Rfc2822.parse_from_rfc2822
-  rw [scanner_complete s f h hr]
-  exact he
+  by_cases hr : SetterRanges f
+  · have hm := grammar_month_year s f h
+    have hp := inType_parsedOf f hr hm.1 (by omega)
+    obtain ⟨e, he⟩ := resolve_weekday_mismatch f hp w hw hne
+    refine ⟨e, ?_⟩
+    unfold Rfc2822.parse_from_rfc2822
+    rw [scanner_complete s f h hr]
+    exact he
+  · exact out_of_range_rejected s f h hr
 
 /-! ## the year rule -/
 
@@ -253,6 +507,105 @@ theorem tables_ok :
     (∀ e ∈ Extracted.ZONE_2822, zoneSecs e.1 = some (e.2 * 3600)) ∧
     Extracted.SHORT_WEEKDAYS = dayNames ∧ Extracted.SHORT_MONTHS = monthNames := by
   refine ⟨by decide, by decide, by decide +kernel, by decide, name_tables.1, name_tables.2.1⟩
+
+/-- **zone_names_sound.**  Conversely `timezone_offset_2822` reads NOTHING but the zones of the
+specification: whatever it accepts is a zone `zz` of the relation (numeric with MM < 60, a table name,
+a single letter other than J) in front of the returned rest, with the returned offset.  With
+`zone_names`: the scanner's zones are exactly `Zone`. -/
+theorem zone_names_sound (s rest : List Nat) (off : Int) (h : Scan.timezone_offset_2822 s = .ok (rest, off)) :
+    ∃ zz, Zone zz off ∧ s = zz ++ rest := tz_inv s rest off h
+
+/-- **obsolete_zone_table.**  The complete table of obsolete zones, on the names re-extracted from
+`scan::timezone_offset_2822`: every extracted name in every letter case is read, alone or before white
+space / a comment, as its RFC 2822 §4.3 hours (`z` as +0000); every single ASCII letter but `J`/`j` is read
+as +0000 (RFC 2822 says −0000 = "unknown"; chrono's offset type has one zero), and `J`, `j` are rejected. -/
+theorem obsolete_zone_table :
+    (∀ e ∈ Extracted.ZONE_2822, ∀ v, CaseOf e.1 v → ∀ rest, NoAlphaHead rest →
+      Scan.timezone_offset_2822 (v ++ rest) = .ok (rest, e.2 * 3600)) ∧
+    (∀ c, isAlpha c → lower c ≠ 106 → ∀ rest, NoAlphaHead rest →
+      Scan.timezone_offset_2822 (c :: rest) = .ok (rest, 0)) ∧
+    (∀ c, lower c = 106 → ∀ rest off, Scan.timezone_offset_2822 [c] ≠ .ok (rest, off)) := by
+  refine ⟨?_, ?_, ?_⟩
+  · intro e he v hv rest hr
+    rcases tables_ok.2.1 e he with hm | hz
+    · exact zone_names v (e.2 * 3600) (Zone.name v e.1 e.2 hm hv) rest hr
+    · subst hz
+      have hl : v.map lower = [122] := hv
+      have hlen : v.length = 1 := by rw [← List.length_map (f := lower), hl]; rfl
+      match v, hlen, hl with
+      | [c], _, hl =>
+        simp only [List.map_cons, List.map_nil, List.cons.injEq, and_true] at hl
+        have ha : isAlpha c := lower_alpha c 122 hl (by omega)
+        have := zone_names [c] 0 (Zone.military c ha (by omega)) rest hr
+        simpa using this
+  · intro c ha hj rest hr
+    exact zone_names [c] 0 (Zone.military c ha hj) rest hr
+  · intro c hj rest off h
+    obtain ⟨zz, hz, hs⟩ := tz_inv [c] rest off h
+    cases hz with
+    | num neg h1 h2 m1 m2 _ _ _ _ =>
+      have := congrArg List.length hs
+      simp at this
+    | name _ nm hours hmem hcase =>
+      have hlen : ∀ e ∈ zoneTable, 2 ≤ e.1.length := by decide
+      have h2 := hlen _ hmem
+      have hl : zz.length = nm.length := by rw [← hcase, List.length_map]
+      have := congrArg List.length hs
+      simp only [List.length_cons, List.length_nil, List.length_append] at this
+      simp only [] at h2
+      omega
+    | military c' _ hj' =>
+      have : c = c' := by
+        have := congrArg List.head? hs
+        simpa using this
+      subst this
+      exact hj' hj
+
+/-! ## white space and comments -/
+
+/-- **white_space_exact.**  What the reader takes as one white-space character (`Scan.wsLen`, the model
+of `char::is_whitespace` on UTF-8, used by `trim_start` / `scan::space`) is exactly one of the 25
+encodings of the specification's table `WS`, and that table is the UTF-8 encoding of the 25 code points
+with the Unicode property `White_Space`. -/
+theorem white_space_exact :
+    (∀ s, Scan.wsLen s ≠ 0 ↔ ∃ w r, w ∈ WS ∧ s = w ++ r) ∧
+    (∀ w ∈ WS, ∀ r, Scan.wsLen (w ++ r) = w.length ∧ 0 < w.length) ∧
+    WS = WS_CODEPOINTS.map utf8Enc ∧ WS_CODEPOINTS.length = 25 ∧ WS_CODEPOINTS.Nodup := by
+  refine ⟨fun s => ⟨fun h => ?_, fun h => ?_⟩, fun w hw r => wsLen_ws w hw r, by decide, by decide, by decide⟩
+  · obtain ⟨w, r, hw, hs, _⟩ := wsLen_inv s h
+    exact ⟨w, r, hw, hs⟩
+  · obtain ⟨w, r, hw, rfl⟩ := h
+    have := wsLen_ws w hw r
+    omega
+
+/-- **comment_exact.**  `scan::comment_2822` accepts exactly `*S "(" ctext ")"` of the specification —
+any bytes but parentheses and backslash, `\` followed by any byte (an escaped parenthesis does not
+nest or close), nested comments — and returns what follows the closing parenthesis. -/
+theorem comment_exact (s rest : List Nat) :
+    Scan.comment_2822 s = .ok rest ↔ ∃ w a, Ws w ∧ CText a ∧ s = w ++ (40 :: (a ++ 41 :: rest)) := by
+  constructor
+  · exact comment_inv s rest
+  · rintro ⟨w, a, hw, ha, rfl⟩
+    exact comment_one hw ha rest
+
+/-- **comment_any_depth.**  There is no nesting limit: `n` comments inside each other are comment text
+for every `n`, so `( (( … )) )` of any depth is read as one comment. -/
+theorem comment_any_depth (n : Nat) (rest : List Nat) :
+    CText (nestText n) ∧ Scan.comment_2822 (40 :: (nestText n ++ 41 :: rest)) = .ok rest := by
+  have h : ∀ n, CText (nestText n) := by
+    intro n
+    induction n with
+    | zero => exact CText.nil
+    | succ k ih =>
+      have := CText.nest (nestText k) [] ih CText.nil
+      simpa [nestText] using this
+  exact ⟨h n, (comment_exact _ rest).mpr ⟨[], nestText n, Ws.nil, h n, rfl⟩⟩
+
+/-- an escaped closing parenthesis does not close, an escaped opening one does not nest:
+`(a\)b\(c)` is one comment; `(a)b)` ends after `a` -/
+example : Scan.comment_2822 [40, 97, 92, 41, 98, 92, 40, 99, 41, 120] = .ok [120] ∧
+    Scan.comment_2822 [40, 97, 41, 98, 41] = .ok [98, 41] ∧
+    nestText 2 = [40, 40, 41, 41] := by decide
 
 /-! ## non-vacuity: concrete strings of the grammar with valid fields -/
 
@@ -301,11 +654,42 @@ example : Rfc2822 exObs exObsFields ∧ Valid exObsFields := by
   unfold Valid
   decide
 
-/-- a contradicting day-name: `Mon, 1 Jul 2003 …` (that day is a Tuesday) meets the hypotheses of
-`weekday_mismatch_rejected` -/
-example : SetterRanges { exStdFields with weekday := some .mon } ∧
+/-- a contradicting day-name: `Mon, 1 Jul 2003 10:52:37 +0200` (that day is a Tuesday) is a string of
+the grammar and meets the hypotheses of `weekday_mismatch_rejected` -/
+def exMon : List Nat :=
+  [77, 111, 110, 44, 32, 49, 32, 74, 117, 108, 32, 50, 48, 48, 51, 32, 49, 48, 58, 53, 50, 58, 51, 55, 32,
+   43, 48, 50, 48, 48]
+example : Rfc2822 exMon { exStdFields with weekday := some .mon } ∧
+    SetterRanges { exStdFields with weekday := some .mon } ∧
     ((Weekday.mon.toNat : Int) ≠ weekdayOf (dayNum 2003 7 1)) := by
-  unfold SetterRanges; decide
+  refine ⟨⟨[], [77, 111, 110, 44], [32], [49], [32], [74, 117, 108], [32], [50, 48, 48, 51], [32], [49, 48], [],
+    [], [53, 50], [58, 51, 55], [32], [43, 48, 50, 48, 48], [],
+    Ws.nil, Or.inr ⟨0, [77, 111, 110], by decide, by decide, rfl, rfl⟩, ws_sp, by decide, Or.inl rfl, by decide,
+    ws1_sp, ⟨6, by decide, by decide, rfl⟩, ws1_sp, by decide, by decide, by decide, ws1_sp,
+    by decide, rfl, by decide, Ws.nil, Ws.nil, by decide, rfl, by decide,
+    Or.inr ⟨[], [51, 55], Ws.nil, by decide, rfl, rfl, rfl⟩, ws1_sp,
+    Zone.num false 48 50 48 48 (by decide) (by decide) (by decide) (by decide), Comments.nil, rfl⟩, ?_, ?_⟩
+  · unfold SetterRanges; decide
+  · decide
+
+/-- a contradicting day-name on fields OUTSIDE the setter ranges: `Mon, 32 Jul 2003 24:52:37 +0200` is a
+string of the grammar (day 32, hour 24), meets the hypotheses of `weekday_mismatch_rejected` and of
+`out_of_range_rejected` -/
+def exBad : List Nat :=
+  [77, 111, 110, 44, 32, 51, 50, 32, 74, 117, 108, 32, 50, 48, 48, 51, 32, 50, 52, 58, 53, 50, 58, 51, 55, 32,
+   43, 48, 50, 48, 48]
+def exBadFields : Fields := ⟨some .mon, 32, 7, 2003, 24, 52, some 37, 7200⟩
+example : Rfc2822 exBad exBadFields ∧ ¬ SetterRanges exBadFields ∧
+    ((Weekday.mon.toNat : Int) ≠ weekdayOf (dayNum 2003 7 32)) := by
+  refine ⟨⟨[], [77, 111, 110, 44], [32], [51, 50], [32], [74, 117, 108], [32], [50, 48, 48, 51], [32], [50, 52], [],
+    [], [53, 50], [58, 51, 55], [32], [43, 48, 50, 48, 48], [],
+    Ws.nil, Or.inr ⟨0, [77, 111, 110], by decide, by decide, rfl, rfl⟩, ws_sp, by decide, Or.inr rfl, by decide,
+    ws1_sp, ⟨6, by decide, by decide, rfl⟩, ws1_sp, by decide, by decide, by decide, ws1_sp,
+    by decide, rfl, by decide, Ws.nil, Ws.nil, by decide, rfl, by decide,
+    Or.inr ⟨[], [51, 55], Ws.nil, by decide, rfl, rfl, rfl⟩, ws1_sp,
+    Zone.num false 48 50 48 48 (by decide) (by decide) (by decide) (by decide), Comments.nil, rfl⟩, ?_, ?_⟩
+  · unfold SetterRanges; decide
+  · decide
 
 /-- the year rule on concrete digit strings: `03` → 2003, `50` → 1950, `103` → 2003, `0654` → 654 -/
 example : yearOf [48, 51] = 2003 ∧ yearOf [53, 48] = 1950 ∧ yearOf [49, 48, 51] = 2003 ∧
